@@ -741,4 +741,37 @@ theorem dedupKeys_spec (l : List (String × Nat × Nat)) :
           · exact h2 x (Or.inr hx)
 
 
+
+/-! ### numeric orders -/
+
+theorem checkRelativeOrder_iff_pairwise (l : List (Order × Int)) :
+    checkRelativeOrder l = true ↔ l.Pairwise (fun p q => matchOrder p.1 p.2 q.1 q.2 = true) := by
+  induction l with
+  | nil => simp [checkRelativeOrder]
+  | cons p l ih =>
+    obtain ⟨o, r⟩ := p
+    simp only [checkRelativeOrder, Bool.and_eq_true, List.all_eq_true, ih, List.pairwise_cons]
+
+/-- numeric orders: the residue tuple passes the relative-order check iff all resids are the orders shifted by one constant -/
+theorem numeric_orders_offsets (l : List (Int × Int)) :
+    checkRelativeOrder (l.map (fun p => (Order.num p.1, p.2))) = true ↔
+      ∀ p ∈ l, ∀ q ∈ l, q.1 - p.1 = q.2 - p.2 := by
+  rw [checkRelativeOrder_iff_pairwise, List.pairwise_map]
+  simp only [matchOrder_num_num]
+  induction l with
+  | nil => simp
+  | cons a l ih =>
+    rw [List.pairwise_cons, ih]
+    constructor
+    · rintro ⟨h1, h2⟩ p hp q hq
+      rcases List.mem_cons.mp hp with hpa | hpl <;> rcases List.mem_cons.mp hq with hqa | hql
+      · rw [hpa, hqa]; omega
+      · rw [hpa]; exact h1 q hql
+      · rw [hqa]; have := h1 p hpl; omega
+      · exact h2 p hpl q hql
+    · intro h
+      exact ⟨fun q hq => h a List.mem_cons_self q (List.mem_cons_of_mem _ hq),
+             fun p hp q hq => h p (List.mem_cons_of_mem _ hp) q (List.mem_cons_of_mem _ hq)⟩
+
+
 end PolyplyVerif.Links
